@@ -1078,7 +1078,18 @@ fn cmd_emit(a: &Args) {
                     let b = render_relayout(&p, shared, &mut r, with_comments);
                     cases.push(Case { stream: stream.clone(), family: fam.clone(), input: a, cfg, cursors: vec![], oracles: oracle_list.clone(), well_formed: true, w2: 80, input2: Some(b), marks: vec![], texts: vec![] });
                 } else {
-                    let o = LayoutOpts { comments: r.chance(1, 3), directives: r.chance(1, 3), blank_lines: r.chance(1, 2), crlf: false, tabs: r.chance(1, 3), tight: r.chance(1, 3), line_comments_only: true };
+                    let mut o = LayoutOpts { comments: r.chance(1, 3), directives: r.chance(1, 3), blank_lines: r.chance(1, 2), crlf: false, tabs: r.chance(1, 3), tight: r.chance(1, 3), line_comments_only: true };
+                    // a declaration section nested in a class lasts until the next member that starts with a keyword; with
+                    // members switched by conditional directives the passes see different member sequences and the
+                    // generator's depths no longer describe every pass: no conditional wrappers for such programs
+                    let nested_section = p.toks.iter().enumerate().any(|(i, t)| {
+                        matches!(t.mark, Mark::Start(d) if d >= 2)
+                            && (matches!(t.text.to_ascii_lowercase().as_str(), "const" | "var" | "type" | "threadvar")
+                                || (t.text.eq_ignore_ascii_case("class") && p.toks.get(i + 1).map_or(false, |n| n.text.eq_ignore_ascii_case("var"))))
+                    });
+                    if nested_section {
+                        o.directives = false;
+                    }
                     let input = if r.chance(1, 3) { render_plain(&p) } else { render_layout(&p, &mut r, o) };
                     let marks: Vec<Mark> = p.toks.iter().map(|t| t.mark).collect();
                     let texts: Vec<String> = p.toks.iter().map(|t| t.text.clone()).collect();
